@@ -296,12 +296,9 @@ impl<'d> PreparedFields<'d> {
             }
         }
 
-        // So we don't write a spurious end boundary
-        if text_data.is_empty() && streams.is_empty() {
-            boundary = String::new();
-        } else {
-            boundary.push_str("--");
-        }
+        // Always write the closing boundary, even for a form without fields: `boundary()` derives
+        // the boundary announced in the Content-Type header from it.
+        boundary.push_str("--");
 
         content_len += boundary.len() as u64;
 
